@@ -50,6 +50,7 @@ type indexRec struct {
 	Thr      uint64   `json:"thr"`
 	Branches []string `json:"branches"`
 	ShardMax int      `json:"shardmax,omitempty"`
+	Repack   bool     `json:"repack,omitempty"` // `git repack -a -d` before this run
 }
 type history struct {
 	Kind     string    `json:"kind"` // "model" (inside the Lean model) | "ignore" | "gitlink"
@@ -158,7 +159,7 @@ func genHistory(r *gen.Rand, f gen.Flags) history {
 		if r.Chance(1, 5) && shardMax == 0 { // (with a small ShardMax the number of shards is not the model's)
 			thr = uint64(r.Range(1, 3))
 		}
-		st.Index = &indexRec{Delta: delta, Thr: thr, Branches: append([]string{}, indexed...), ShardMax: shardMax}
+		st.Index = &indexRec{Delta: delta, Thr: thr, Branches: append([]string{}, indexed...), ShardMax: shardMax, Repack: r.Chance(1, 5)}
 		h.Steps = append(h.Steps, st)
 	}
 	return h
@@ -394,6 +395,7 @@ func mutate(r *gen.Rand, t map[string]ent, b string, branches []string, state ma
 // ---------------------------------------------------------------------------------------------------------------
 
 type runner struct {
+	fsck     bool
 	w        *gen.Writer
 	tmp      string
 	paths    *gen.Interner
@@ -521,6 +523,15 @@ func (rn *runner) run(h history, id string) {
 			continue
 		}
 		ix := st.Index
+		if ix.Repack {
+			g.Repack()
+			rn.w.Count("repacked-before-run", 1)
+		}
+		if rn.fsck && si == len(h.Steps)-1 {
+			if msg := g.Fsck(); msg != "" {
+				panic("harness wrote a bad repository: " + msg)
+			}
+		}
 		opts := gitindex.Options{
 			RepoDir:  repoDir,
 			Branches: ix.Branches,
@@ -729,7 +740,7 @@ func main() {
 		panic(err)
 	}
 	defer os.RemoveAll(tmp)
-	rn := &runner{w: w, tmp: tmp, paths: gen.NewInterner(), blobs: gen.NewInterner(), branches: gen.NewInterner()}
+	rn := &runner{fsck: f.Tier == "thorough", w: w, tmp: tmp, paths: gen.NewInterner(), blobs: gen.NewInterner(), branches: gen.NewInterner()}
 
 	if f.Replay != "" {
 		var rp struct {
